@@ -67,7 +67,7 @@ def oracle(ctx, prop, n, per, sub="oracle"):
 def make_search(prop):
     def search(ctx, factor):
         before = len(ctx.fails)
-        oracle(ctx, prop, ctx.scale(300, 3000) * factor, 40, "search")
+        oracle(ctx, prop, ctx.scale(800, 5000) * factor, 40, "search")
         found = ctx.fails[before:]
         del ctx.fails[before:]
         return found
@@ -80,8 +80,8 @@ def run(ctx, prop, props, obligs):
     ctx.assumptions += ASSUMPTIONS
     if not build(ctx, props, obligs):
         return
-    correspondence(ctx, ctx.scale(300, 3000), ctx.scale(80, 0))
-    summ = oracle(ctx, prop, ctx.scale(300, 3000), ctx.scale(30, 0))
+    correspondence(ctx, ctx.scale(800, 5000), ctx.scale(80, 0))
+    summ = oracle(ctx, prop, ctx.scale(800, 5000), ctx.scale(30, 0))
     ctx.add_summary(summ, "MergeFilesWith oracle (%s)" % prop)
     if ctx.tier == "thorough":
         ctx.cov["forbidden_vernacular"] = C.forbidden_vernacular()
